@@ -310,6 +310,28 @@ func genPlanC01Sock(rt *rapid.T) c01SockPlan {
 			p.PauseUs = rapid.SampledFrom([]int{0, 30}).Draw(rt, "seg-pause-long")
 		}
 	}
+	if p.Proto == "tcp" && rapid.IntRange(0, 2).Draw(rt, "large-units") == 0 {
+		// units far beyond any datagram: the header's total length goes up to 65535 on a stream. An unassigned service
+		// (delivered as it is) or a tunnelling request whose connection header lies (dropped) - either way the frames
+		// behind it arrive
+		for k := rapid.IntRange(1, 2).Draw(rt, "n-large"); k > 0; k-- {
+			total := rapid.SampledFrom([]int{1025, 2048, 4095, 4096, 4097, 4098, 5000, 8191, 8192, 8193, 16384, 32768, 65534, 65535}).Draw(rt, "large-total")
+			b := make([]byte, total)
+			for i := range b {
+				b[i] = byte(i*7 + total)
+			}
+			b[0], b[1], b[2], b[3], b[4], b[5] = 6, 0x10, 0x0f, 0x00, byte(total>>8), byte(total)
+			if rapid.Bool().Draw(rt, "large-malformed") {
+				b[2], b[3], b[6] = 0x04, 0x20, 9 // tunnelling request, connection header length 9
+			}
+			at := rapid.IntRange(0, len(p.Items)).Draw(rt, "large-at")
+			p.Items = append(p.Items[:at], append([]string{hex.EncodeToString(b)}, p.Items[at:]...)...)
+		}
+		p.PauseUs = 0
+		for i := range p.Cuts {
+			p.Cuts[i] *= 97
+		}
+	}
 	if p.Proto == "tcp" && rapid.IntRange(0, 2).Draw(rt, "break") == 0 {
 		// a last item that breaks the framing: bad header octets or a total length that lies
 		var b []byte
